@@ -333,3 +333,62 @@ class SharedFlow:
             if isinstance(n, ast.Name) and n.id == name and isinstance(n.ctx, ast.Load) and in_seq_ctx(n):
                 return True
         return False
+
+
+# ---------------------------------------------------------------------------
+# memo idiom
+# ---------------------------------------------------------------------------
+
+
+def memo_complete(f: Func, container_text: str) -> Tuple[bool, str]:
+    """``container_text`` (e.g. ``_CACHE`` or ``self._cache``) is used in ``f`` as a
+    memo table - looked up by a key and filled with ``D[key] = value`` (evictions by
+    clear/pop allowed) - and the key is built from *every* parameter of ``f`` that
+    the function uses.  Such a table cannot make a result depend on earlier calls.
+    -> (ok, reason)"""
+    from .util import assignments_to
+
+    stores, other = [], []
+    for n in own_nodes(f.node):
+        if isinstance(n, ast.Assign):
+            for t in n.targets:
+                if isinstance(t, ast.Subscript) and unparse(t.value) == container_text:
+                    stores.append((n, t.slice))
+        if isinstance(n, ast.AugAssign) and isinstance(n.target, ast.Subscript) and unparse(n.target.value) == container_text:
+            other.append(n)
+        if isinstance(n, ast.Call) and isinstance(n.func, ast.Attribute) and unparse(n.func.value) == container_text:
+            if n.func.attr in ("clear", "pop", "popitem", "get", "keys", "values", "items", "__contains__"):
+                continue
+            if n.func.attr == "setdefault" and n.args:
+                stores.append((n, n.args[0]))
+                continue
+            other.append(n)
+    if other:
+        return False, "%s is also changed by %s" % (container_text, unparse(other[0])[:40])
+    if not stores:
+        return False, "no keyed store"
+    lookups = [n for n in own_nodes(f.node) if (isinstance(n, ast.Compare) and len(n.ops) == 1 and isinstance(n.ops[0], (ast.In, ast.NotIn)) and unparse(n.comparators[0]) == container_text) or (isinstance(n, ast.Call) and isinstance(n.func, ast.Attribute) and n.func.attr == "get" and unparse(n.func.value) == container_text)]
+    if not lookups:
+        return False, "stored but never looked up by key in the same function"
+
+    def closure(e, depth=0):
+        names = set()
+        for x in ast.walk(e):
+            if isinstance(x, ast.Name):
+                names.add(x.id)
+                if depth < 3:
+                    for _, v, _i in assignments_to(f, x.id):
+                        names |= closure(v, depth + 1)
+        return names
+
+    key_names = set()
+    for _, k in stores:
+        key_names |= closure(k)
+    params = [p_ for p_ in f.params + f.kwonly if p_ not in ("self", "cls")]
+    if f.cls is not None and not f.is_static and f.params:
+        params = [p_ for p_ in params if p_ != f.params[0]]
+    used = {n.id for n in own_nodes(f.node) if isinstance(n, ast.Name) and isinstance(n.ctx, ast.Load)}
+    missing = [p_ for p_ in params if p_ in used and p_ not in key_names]
+    if missing:
+        return False, "the key leaves out %s, which the function uses" % missing
+    return True, "memo keyed by every parameter the function uses (%s)" % sorted(set(params) & key_names)
